@@ -51,7 +51,8 @@ RULE = ("Every run is driven per INVOCATION of the real main(): the operator mod
         "gives it; no prospective invocation launches steps of two iterations); "
         "run-repaired (the same with the one-line repair applied to an in-memory copy of the script, model parameter "
         "fixed=1); one- and two-plate screens with batch sizes 1-4 (all single crash points); "
-        "torn (an entry [k, order, 1]: the interruption comes WHILE publication k-4 is under way; if that file is screen_metadata.json it is left holding the first half of its text - "
+        "torn (an entry [k, order, 1]: the interruption comes WHILE event k-4 of the pipeline run is under way; if that is the publication of screen_metadata.json the file is left holding the first half of "
+        "its text; if it is the run's own wrap-up after its last publication every file is whole but the exit status is not 0 (the call of run_next_* does not return, the step counts as complete) - "
         "every step of every configuration x every admissible order, plus combinations with ordinary crashes - against Orchestrate.script_session_t and judged like run; the operator reruns "
         "after an exception that names nothing; model parameter tfix = what the probe of the real validate_job_dir_and_return_meta says, 1 on /repo since the repair: an unreadable marker is named "
         "like a missing one); torn-repaired (only on a tree WITHOUT that repair: the same schedules with it applied in memory, tfix=1); "
@@ -561,6 +562,7 @@ class Runner:
         self.by = {}
         self.cur_k, self.cur_order, self.cur_logged = FULL, CANON, True
         self.cur_torn = 0
+        self.late_deaths = 0
         # entries [k, order, 1]: the interruption comes while publication number k-4 is under way (a torn marker, see the fake)
         self.tearing = any(len(e) > 2 and e[2] for e in self.sched)
         self.invocations = 0
@@ -717,6 +719,13 @@ class Runner:
                 rc = fake_module().main(cmd[1:], env)
                 if rc != 0:
                     raise subprocess.CalledProcessError(rc, cmd)
+            if rc == 0 and self.cur_torn and s is not None:
+                # tearing entry whose event number is one past the last publication: the run is interrupted in its own wrap-up
+                # (report, trace, clean-up) - every file is whole, the exit status is not 0
+                names = dict(((i, j), nm) for i, pls in self.scan() for j, nm in pls).get(s, set())
+                if p == sum(1 for k in self.cur_order if FILES[k] in names) + 1:
+                    self.late_deaths += 1
+                    raise subprocess.CalledProcessError(1, cmd)
         except subprocess.CalledProcessError as e:
             rc = e.returncode
             raise
@@ -1187,6 +1196,10 @@ def gen(rng, tier):
                 yield d
                 if torn_ok:
                     yield dict(d, kind="torn-repaired")
+                if order == CANON or bs <= 2:
+                    # the interruption comes in the pipeline's wrap-up after its LAST publication (event number = files + 1): the step is
+                    # complete, the exit status is not 0, the call does not return
+                    yield dict(kind="torn", mode=m, bs=bs, n=n, sched=mk_sched(T, [(a, 4 + npubs(m, bs, a) + 1, order, 1)], tail=4), spawn=False)
     for _ in range(50 if quick else 800):
         # a torn marker plus one or two ordinary crashes; and tear flags on publications that are not the marker (no effect)
         m, bs, n = rng.choice(configs + small)
@@ -1195,7 +1208,9 @@ def gen(rng, tier):
         for _ in range(rng.randint(1, 3)):
             order = rng.choice(orders_for(m))
             a = rng.randint(0, T - 1)
-            if rng.random() < 0.6:
+            if rng.random() < 0.15:
+                cr.append((a if not cr else rng.randint(0, 2), 4 + npubs(m, bs, a if not cr else rng.randint(0, T - 1)) + 1, order, 1))
+            elif rng.random() < 0.6:
                 cr.append((a if not cr else rng.randint(0, 2), 4 + marker_pos(m, bs, rng.randint(0, T - 1), order), order, 1))
             else:
                 cr.append((a if not cr else rng.randint(0, 2), rng.randint(0, 11), order, rng.randint(0, 1)))
@@ -1453,7 +1468,7 @@ def run(desc):
         if any(e[1] != CANON for e in sched):
             feats.append("non-canonical-order")
         if r.tearing:
-            feats.append("marker-torn" if any(ev.get("torn_markers") for ev in r.events) else "tear-flag-without-effect")
+            feats.append("marker-torn" if any(ev.get("torn_markers") for ev in r.events) else "late-death" if r.late_deaths else "tear-flag-without-effect")
         if desc.get("spawn"):
             feats.append("spawned-fake")
         if any(g[0] == 0 for g in r.log):
